@@ -7,8 +7,12 @@ state, at most one continuation per typed word among literals (whatever their la
 within-word automata (whatever pool entry they are).  The full statement is *false* of the pinned
 design (see known_findings.jsonl: the same literal in two `||` branches, language-equal within-word
 automata interned apart); those two kinds are computed from the witness the checker returns.
+And `fallback_transparent`: the validated expression of a grammar and of its `|` variant agree once
+descriptions, levels and positions are erased (`Proofs/Fallback.lean`, through C02's
+`validation_is_meaning`).
 -/
 import Complgen.Proofs.Det
+import Complgen.Proofs.Fallback
 namespace Complgen.Props.C09
 open Complgen.Cert
 
@@ -45,5 +49,26 @@ example :
     let good : KAuto := { start := 1, acc := [4], trans := [(1, "L:61:e:0", 2), (1, "L:61:e:1", 2), (2, "L:78:e:0", 4), (2, "L:79:e:1", 4)] }
     wordDetCheck bad cls = false ∧ wordDetCheck good cls = true := by
   decide
+
+/-! ### `||` is transparent to matching
+
+`Check.strip` erases what does not take part in matching — descriptions, `||` levels, source
+positions — and reads `||` as `|`.  `Check.fbToAltG g` is the grammar `g` with every `||` replaced by
+`|`. -/
+
+open Complgen in
+/-- the meaning the specification gives a grammar and its `|` variant is the same expression up to
+`strip` (replacing `||` by `|` changes only how a description after a group is spent, and the levels) -/
+theorem fallback_transparent_meaning (sp : Span) (g : Grammar) (sh : Shell) :
+    Check.strip (Spec.meaningAt sp (Check.fbToAltG g) sh) = Check.strip (Spec.meaningAt sp g sh) :=
+  Check.meaningAt_fbToAlt sp g sh
+
+open Complgen in
+/-- **`||` is transparent to matching in the model of check.rs**: whenever it accepts a grammar and
+its `|` variant, the two validated expressions — from which the automata are built — agree up to
+`strip`, hence match the same command lines. -/
+theorem fallback_transparent (g : Grammar) (sh : Shell) (v v' : Check.Valid) (h : Check.validate g sh = .ok v)
+    (h' : Check.validate (Check.fbToAltG g) sh = .ok v') : Check.strip v'.expr = Check.strip v.expr :=
+  Check.validate_fbToAlt g sh v v' h h'
 
 end Complgen.Props.C09
